@@ -13,6 +13,9 @@ mkdir -p /scratch
 git -C /repo worktree add -q --detach $W HEAD || exit 2
 trap 'cd /; git -C /repo worktree remove --force '$W' 2>/dev/null' EXIT
 mkdir -p $W/$dir && cp $S/$demo $W/$dir/
+# only the demonstration's own tests (some package directories hold tests that fail on the clean tree)
+pat=$(grep -h -o '^func Test[A-Za-z0-9_]*' $S/$demo | sed 's/^func //' | paste -sd'|')
+extra="$extra -run ^($pat)\$"
 cd $W
 go test $extra -vet=off -count=1 ./$dir/ > /dev/null 2>&1; a=$?
 git apply $S/patch.diff || { echo "$1 PATCH DOES NOT APPLY"; exit 2; }
